@@ -87,6 +87,20 @@ func c03Run(x *core.Ctx) {
 			x.DoLite("src", "src", s, func() { c03Compare(x, s) })
 		})
 	}
+	// a name, a number or a punctuator directly followed by a character above U+007F whose LOW byte is that of a letter, a
+	// digit, an underscore, a quote or a blank: arithmetic on a truncated character takes it for one
+	for lo := 0; lo < 256; lo++ {
+		if lo%x.NShards != x.Shard {
+			continue
+		}
+		for _, hi := range []rune{0x01, 0x02, 0x4E, 0xFF} {
+			ch := string(hi<<8 | rune(lo))
+			for _, pre := range []string{"a", "_", "1", "1.5", "{", "\"x", "#c", "$"} {
+				s := pre + ch + " b"
+				x.DoLite("src", "src", s, func() { c03Compare(x, s) })
+			}
+		}
+	}
 	r := x.Rand(uint64(x.Shard))
 	per := nRandom / x.NShards
 	for i := 0; i < per; i++ {
